@@ -3,6 +3,7 @@ CONSTANTS
   Clients <- E2Clients
   Reqs <- E2Reqs
   Bg = "none"
+  Handoff = TRUE
   NotifyOnEof = FALSE
 INVARIANT FailOnlyWhenGone
 INVARIANT StillRight
